@@ -801,6 +801,11 @@ class LaneScoreboard:
             sready, ovalid, of, ol = outs[:4]
             lanes = outs[4:]
             msg = None
+            # a wide beat that was offered and stalled must be offered again unchanged
+            prev = getattr(self, "prev", None)
+            self.prev = (of, ol, list(lanes)) if (ovalid and not r) else None
+            if prev is not None and (not ovalid or prev != (of, ol, list(lanes))):
+                return "stalled wide beat %r changed to (valid=%d) %r" % (prev, ovalid, (of, ol, list(lanes)))
             if ovalid and r:
                 # delivery first: a group completed in this very cycle cannot be delivered now (1 cycle latency)
                 if not self.exp:
@@ -1077,9 +1082,10 @@ class ConvE2E:
 
 
 class Job:
-    def __init__(self, mode, make, **kw):
-        self.mode = mode      # 'A' | 'B' | 'D'
+    def __init__(self, mode, make, label=None, **kw):
+        self.mode = mode      # 'A' | 'B' | 'D' | 'C' | 'E'
         self.make = make
+        self.label = label
         self.kw = kw
 
 
@@ -1122,7 +1128,7 @@ def _run_job(idx, job, cov, lean, seed, tier, budget):
     signal.alarm(budget)
     try:
         inst = job.make()
-        job.label = getattr(inst, "name", None)
+        job.label = getattr(inst, "name", None) or job.label
         if job.mode == "A":
             dis = coexplore(inst, lean, cov, deadline=time.time() + budget * 0.9, **job.kw)
         elif job.mode == "D":
